@@ -809,6 +809,16 @@ val lex_all : classes -> nat -> bytes -> token0 list
 
 val lex : classes -> bytes -> token0 list
 
+type lstate = { rest : bytes; last_eof : bool }
+
+val linit : bytes -> lstate
+
+val is_eof : token0 -> bool
+
+val lnext : classes -> lstate -> token0 * lstate
+
+val lpeek : classes -> lstate -> token0
+
 val tok_of : token0 -> token
 
 val lex_tokens : classes -> char list -> token list
